@@ -534,6 +534,16 @@ theorem exec_protocol_for_reference (o : Ref.Opts) (ncaps : Nat) (node : Ref.Nod
   ⟨exec_lastIndex_protocol fl _ _ li (Ref.refFinderCU_leftmost o ncaps node units),
    fastSearch_eq_generic fl _ _ li (Ref.refFinderCU_leftmost o ncaps node units)⟩
 
+/-- Unicode mode, reference matcher + position map together: a match found from the rune position i and reported
+through `bounds 0 (decode units)` (the map `buildPosMap` builds, `posmap_correct`) has UTF-16 indices
+start ≤ s ≤ e ≤ |units| — the UTF-16 exactness the property demands, for the spec side. -/
+theorem ref_unicode_indices (o : Ref.Opts) (ncaps : Nat) (node : Ref.Node) (units : List Nat) (i j : Nat) (st : Ref.St)
+    (h : Ref.refFind o ((decode units).map Prod.fst).toArray ncaps node i = some (j, st)) :
+    (bounds 0 (decode units)).getD i 0 ≤ (bounds 0 (decode units)).getD j 0 ∧
+    (bounds 0 (decode units)).getD j 0 ≤ (bounds 0 (decode units)).getD st.pos 0 ∧
+    (bounds 0 (decode units)).getD st.pos 0 ≤ units.length :=
+  Ref.refFind_unicode_indices o ncaps node units i j st h
+
 /-! ## non-vacuity examples (tests on literals, not theorems) -/
 
 example : Leftmost witnessFinder 3 := by
